@@ -9,6 +9,7 @@ import (
 	"gitlab.com/aquachain/aquachain/aqua/accounts"
 	"gitlab.com/aquachain/aquachain/aqua/event"
 	"gitlab.com/aquachain/aquachain/aquadb"
+	"gitlab.com/aquachain/aquachain/consensus"
 	"gitlab.com/aquachain/aquachain/core"
 	"gitlab.com/aquachain/aquachain/core/state"
 	"gitlab.com/aquachain/aquachain/core/types"
@@ -28,6 +29,29 @@ func (b *minerBackend) BlockChain() *core.BlockChain      { return b.n.Chain }
 func (b *minerBackend) TxPool() *core.TxPool              { return b.pool }
 func (b *minerBackend) ChainDb() aquadb.Database          { return b.n.DB }
 
+// gateEngine holds every Seal call until the test releases it, so that the test
+// decides what happens while a block is being sealed (transactions arriving in
+// the pool, for one).
+type gateEngine struct {
+	consensus.Engine
+	started chan *types.Block
+	release chan struct{}
+}
+
+func (g *gateEngine) Seal(chain consensus.ChainReader, block *types.Block, stop <-chan struct{}) (*types.Block, error) {
+	select {
+	case g.started <- block:
+	case <-stop:
+		return nil, nil
+	}
+	select {
+	case <-g.release:
+	case <-stop:
+		return nil, nil
+	}
+	return g.Engine.Seal(chain, block, stop)
+}
+
 // TestMinerBlocksImport runs the node's own block-building path (miner +
 // worker + tx pool, fake PoW) and gives every block it announces to an
 // independent node, which must accept it with identical receipts and state.
@@ -35,7 +59,7 @@ func (b *minerBackend) ChainDb() aquadb.Database          { return b.n.DB }
 // not depend on the times read. A miner that produces nothing within the
 // budget makes the case inconclusive (counted), not a violation.
 func TestMinerBlocksImport(t *testing.T) {
-	ev.MustHit("miner-block-imported", "miner-block-with-txs")
+	ev.MustHit("miner-block-imported", "miner-block-with-txs", "tx-arrived-while-sealing")
 	ev.Check(t, ev.N(3, 48), func(t *rapid.T) {
 		nc := rapid.SampledFrom([]gen.NamedConfig{gen.ConfigByName("all-at-0"), gen.ConfigByName("test-hf1-7"), gen.ConfigByName("testnet2-like"), gen.ConfigByName("steep")}).Draw(t, "config")
 		g := gen.Genesis(nc.Config, 0)
@@ -55,7 +79,8 @@ func TestMinerBlocksImport(t *testing.T) {
 		pool := core.NewTxPool(pcfg, nc.Config, m.Chain)
 		defer pool.Stop()
 		mux := new(event.TypeMux)
-		mn := miner.New(&minerBackend{n: m, pool: pool}, nc.Config, mux, m.Engine)
+		gate := &gateEngine{Engine: m.Engine, started: make(chan *types.Block), release: make(chan struct{})}
+		mn := miner.New(&minerBackend{n: m, pool: pool}, nc.Config, mux, gate)
 		sub := mux.Subscribe(core.NewMinedBlockEvent{})
 		defer sub.Unsubscribe()
 
@@ -121,6 +146,19 @@ func TestMinerBlocksImport(t *testing.T) {
 					ev.Label("miner-block-with-txs")
 				}
 				added += addTxs()
+			case <-gate.started:
+				// a block is being sealed: transactions may reach the pool right now
+				if rapid.IntRange(0, 2).Draw(t, "lateTxs") > 0 {
+					if n := addTxs(); n > 0 {
+						added += n
+						ev.Label("tx-arrived-while-sealing")
+						time.Sleep(5 * time.Millisecond) // let the worker see the pool event before the seal returns
+					}
+				}
+				select {
+				case gate.release <- struct{}{}:
+				case <-time.After(2 * time.Second): // that work was aborted meanwhile
+				}
 			case <-deadline:
 				ev.Label("miner-timeout")
 				break loop
